@@ -141,6 +141,19 @@ def use_nestle_double(on):
     nestle.sample = _nestle_sample if on else _saved_nestle_sample
 
 
+def bound_real_nestle(maxcall):
+    """Harness seam: the real nestle.sample with a cap on likelihood calls
+    (step cap of the simulation; nestle returns a regular Result)."""
+    import nestle
+    real = _saved_nestle_sample
+
+    def bounded(loglikelihood, prior_transform, ndim, **kw):
+        kw.setdefault('maxcall', maxcall)
+        kw['callback'] = None
+        return real(loglikelihood, prior_transform, ndim, **kw)
+    nestle.sample = bounded
+
+
 def optimizer_classes():
     install()
     from taurex.optimizer.nestle import NestleOptimizer
@@ -148,3 +161,134 @@ def optimizer_classes():
     from taurex.optimizer.polychord import PolyChordOptimizer
     return {'nestle': NestleOptimizer, 'multinest': MultiNestOptimizer,
             'polychord': PolyChordOptimizer}
+
+
+# ---------------------------------------------------------------------------
+# Result plans for C09: the sampler's output *as written* is the ground truth
+# ---------------------------------------------------------------------------
+
+def _fmt(x):
+    return '%28.18E' % x
+
+
+def write_multinest_files(base, modes, multimodal, logz=-12.5, logzerr=0.1,
+                          leading_blank=True):
+    """modes: list of dicts {samples: [[...]], weights: [...], m2logl: [...],
+    map: [...], ml: [...]}.  Writes <base>.txt, <base>post_separate.dat,
+    <base>stats.dat in MultiNest's text layout (weight, -2logL, parameters)."""
+    import numpy as np
+    allrows = []
+    for md in modes:
+        for s, w, l in zip(md['samples'], md['weights'], md['m2logl']):
+            allrows.append([w, l] + list(s))
+    with open(base + '.txt', 'w') as f:
+        for r in allrows:
+            f.write(''.join(_fmt(x) for x in r) + '\n')
+    with open(base + 'post_separate.dat', 'w') as f:
+        for k, md in enumerate(modes):
+            if k > 0 or leading_blank:
+                f.write('\n\n')
+            for s, w, l in zip(md['samples'], md['weights'], md['m2logl']):
+                f.write(''.join(_fmt(x) for x in [w, l] + list(s)) + '\n')
+    with open(base + 'stats.dat', 'w') as f:
+        f.write('Nested Sampling Global Log-Evidence           :%s  +/-%s\n'
+                % (_fmt(logz), _fmt(logzerr)))
+        if multimodal:
+            f.write('Nested Importance Sampling Global Log-Evidence:%s  +/-%s\n'
+                    % (_fmt(logz), _fmt(logzerr)))
+            f.write('\nTotal Modes Found:%11d\n' % len(modes))
+            for k, md in enumerate(modes):
+                f.write('\n\nMode%4d\n' % (k + 1))
+                f.write('Strictly Local Log-Evidence%s  +/-%s\n'
+                        % (_fmt(logz), _fmt(logzerr)))
+                f.write('Local Log-Evidence%s  +/-%s\n'
+                        % (_fmt(logz), _fmt(logzerr)))
+                _stats_tables(f, md, titles=True)
+        else:
+            # layout accepted by the wrapper's own non-multimodal parser
+            # (reconstructed from that parser: low fidelity, see DESIGN)
+            f.write('\n')
+            _stats_tables(f, modes[0], titles=False)
+
+
+def _stats_tables(f, md, titles):
+    import numpy as np
+    s = np.array(md['samples'], dtype=float)
+    w = np.array(md['weights'], dtype=float)
+    mean = (s * w[:, None]).sum(0) / w.sum()
+    sig = np.sqrt(((s - mean) ** 2 * w[:, None]).sum(0) / w.sum())
+    f.write('\nDim No.       Mean        Sigma\n' if titles else
+            'Dim No.       Mean        Sigma\n')
+    for i in range(s.shape[1]):
+        f.write('%4d%s%s\n' % (i + 1, _fmt(mean[i]), _fmt(sig[i])))
+    f.write('\n')
+    if titles:
+        f.write('Maximum Likelihood Parameters\n')
+    f.write('Dim No.        Parameter\n')
+    for i in range(s.shape[1]):
+        f.write('%4d%s\n' % (i + 1, _fmt(md['ml'][i])))
+    f.write('\n')
+    if titles:
+        f.write('MAP Parameters\n')
+    f.write('Dim No.        Parameter\n')
+    for i in range(s.shape[1]):
+        f.write('%4d%s\n' % (i + 1, _fmt(md['map'][i])))
+
+
+def multinest_stats(modes, multimodal, logz=-12.5, logzerr=0.1):
+    """What pymultinest.Analyzer.get_stats() reports: per-mode tables when
+    MultiNest ran multimodal, no modes otherwise (the wrapper then parses
+    stats.dat itself)."""
+    import numpy as np
+    out = {'global evidence': logz, 'global evidence error': logzerr,
+           'nested sampling global log-evidence': logz,
+           'nested sampling global log-evidence error': logzerr,
+           'modes': [], 'marginals': []}
+    if not multimodal:
+        return out
+    for k, md in enumerate(modes):
+        s = np.array(md['samples'], dtype=float)
+        w = np.array(md['weights'], dtype=float)
+        mean = (s * w[:, None]).sum(0) / w.sum()
+        sig = np.sqrt(((s - mean) ** 2 * w[:, None]).sum(0) / w.sum())
+        out['modes'].append({
+            'index': k,
+            'strictly local log-evidence': logz,
+            'strictly local log-evidence error': logzerr,
+            'local log-evidence': logz, 'local log-evidence error': logzerr,
+            'mean': mean.tolist(), 'sigma': sig.tolist(),
+            'maximum': list(md['ml']),
+            'maximum a posterior': list(md['map'])})
+    return out
+
+
+def write_polychord_files(basedir, modes, logz=-12.5, logzerr=0.1):
+    """1-.txt, 1-.stats, clusters/1-_k.txt.  The .stats layout is reconstructed
+    from the wrapper's own line arithmetic (lowest-fidelity double)."""
+    import os
+    os.makedirs(os.path.join(basedir, 'clusters'), exist_ok=True)
+    for fn in os.listdir(os.path.join(basedir, 'clusters')):
+        os.remove(os.path.join(basedir, 'clusters', fn))
+    with open(os.path.join(basedir, '1-.txt'), 'w') as f:
+        for md in modes:
+            for s, w, l in zip(md['samples'], md['weights'], md['m2logl']):
+                f.write(''.join(_fmt(x) for x in [w, l] + list(s) + [0.0])
+                        + '\n')
+    for k, md in enumerate(modes):
+        with open(os.path.join(basedir, 'clusters', '1-_%d.txt' % (k + 1)),
+                  'w') as f:
+            for s, w, l in zip(md['samples'], md['weights'], md['m2logl']):
+                f.write(''.join(_fmt(x) for x in [w, l] + list(s) + [0.0])
+                        + '\n')
+    with open(os.path.join(basedir, '1-.stats'), 'w') as f:
+        lines = ['Evidence estimates:', '===================',
+                 '  - The evidence Z is a log-normally distributed, with '
+                 'location and scale parameters mu and sigma.',
+                 '  - We denote this as log(Z) = mu +/- sigma.', '',
+                 'Global evidence:', '----------------', '',
+                 'log(Z)       = %s +/- %s' % (_fmt(logz), _fmt(logzerr)),
+                 '', '', 'Local evidences:', '----------------', '']
+        for k in range(len(modes)):
+            lines.append('log(Z_ %d)  = %s +/- %s'
+                         % (k + 1, _fmt(logz), _fmt(logzerr)))
+        f.write('\n'.join(lines) + '\n')
